@@ -10,6 +10,25 @@ CHECKS = {
    text='For a generated family of core-language template functions the QBE IL emitted by the freshly built compiler is executed symbolically with all parameters free 64-bit vectors; z3 decides, per IL path, equality with an independent reference evaluation (return value, panic, trap, prints). Bounded by the template family and loop unrolling; every counterexample and one witness per template is replayed on the linked native executable.',
    note='Trusted: z3; QBE IL semantics in lirsym/qbe.py (validated by witness replay through qbe+as+ld each run); runtime contracts in lirsym/rtsum.py (discharged by C16/C17); reference semantics templates/lang.py. Program shapes outside the families are not covered.'),
 }
+_TV_NOTE = 'Trusted: z3; QBE IL semantics in lirsym/qbe.py (validated by witness replay through qbe+as+ld each run); runtime contracts in lirsym/rtsum.py (discharged by C16/C17); reference semantics templates/lang.py. Program shapes outside the generated families are not covered.'
+CHECKS.update({
+ 'C04': dict(level='model_checking', engine='lirsym/qbe', design='4/C04',
+   technique='bounded symbolic execution of emitted QBE IL with region memory-safety obligations, all index/parameter values, z3',
+   text='Fixed-array templates (literal, const, let, branch-reassigned, loop-carried and parameter indices; reads and writes; N in {1,3} quick) are compiled by the fresh compiler; the IL is executed symbolically, every access must stay inside the array region and the result must equal a reference evaluation using the run-time index value; out-of-range executions must panic or the program be rejected. All parameter values; loops unrolled with unwinding assertion.',
+   note=_TV_NOTE),
+ 'C05': dict(level='model_checking', engine='lirsym/qbe', design='4/C05',
+   technique='bounded symbolic execution of emitted QBE IL: reachability of value-less ret (fall-off) for all argument values, z3',
+   text='Function bodies generated from nested if/else-if/else, match with and without default, while/break, early returns (depth 1 + sampled sequences quick; depth 2 thorough) in named functions, methods and function literals. For every accepted body the solver decides that no feasible IL path reaches a ret without value and that the returned value equals the reference; rejected bodies are not constrained.',
+   note=_TV_NOTE + ' Loop conditions in the shapes are loop-invariant, so runs beyond the unrolling never terminate and are outside the obligation.'),
+ 'C08': dict(level='model_checking', engine='lirsym/qbe', design='4/C08',
+   technique='bounded symbolic execution of emitted QBE IL against array/string contracts: all index values of 4-7 index types, z3',
+   text='Dynamic-array and string templates (literal construction, appends, element assignment, re-binding, indexing with opaque, let-bound and literal indices). For all index values: in range => the stored element, out of range => an index-out-of-bounds panic with no runtime access outside [0,len); literal indices valid for the current length must compile; prints before a panic stay in the trace.',
+   note=_TV_NOTE + ' Delivery of buffered stdout on abort (panic.c) is not decided here.'),
+ 'C18': dict(level='model_checking', engine='lirsym/qbe', design='4/C18',
+   technique='bounded symbolic execution of emitted QBE IL: write-one/read-every-component non-interference, all values, z3',
+   text='For a pool of struct types (mixed widths, nested structs, fixed arrays inside structs, optionals) one template per (written component, read component / neighbour local / copy): the IL is executed symbolically and the solver decides that the written component reads back the new value and every other component, neighbouring locals and copies are unchanged, for all values. Pointer size 8 only (QBE).',
+   note=_TV_NOTE + ' Pointer size 4 (wasm) and result types are not covered yet.'),
+})
 NA_DEFAULT = 'check not built yet (work in progress, see DESIGN.md section 11)'
 NA = {}
 
